@@ -113,8 +113,41 @@ Definition symeig_svd (eigh : mat -> list F * mat) (sq : F -> F) (eps : F) (M : 
   let V := rev (transp c V) in                          (* flip(transpose(V), axis=0) *)
   (map (firstn (Nat.min d1 k)) U, firstn (Nat.min (Nat.min d1 d2) k) Sg, firstn (Nat.min d2 k) V).
 
+(* ---------- randomized_range_finder / randomized_svd ----------
+   qr k X = the Q factor of the k-th tl.qr(X) call (reduced QR, oracle); G = the taped rng.normal(size=(dim_2, n_dims));
+   svd X full = tl.svd(X, full_matrices=full) (oracle).  Matrix products, transposes, the branch condition,
+   n_dims, the inner truncated_svd and the lifting by Q are modelled. *)
+Fixpoint power_iter (qr : nat -> mat -> mat) (A At : mat) (n_iter call : nat) (Q : mat) : mat :=
+  match n_iter with
+  | 0 => Q
+  | S k => let Q1 := qr call (mmul (ncols Q) At Q) in                        (* Q, _ = qr(A_H @ Q) *)
+           power_iter qr A At k (S (S call)) (qr (S call) (mmul (ncols Q1) A Q1))  (* Q, _ = qr(A @ Q)   *)
+  end.
+(* cA = number of columns of A; qr k X = the Q factor returned by the k-th tl.qr call of this run, handed X *)
+Definition range_finder (qr : nat -> mat -> mat) (A : mat) (cA : nat) (G : mat) (n_iter : nat) : mat :=
+  power_iter qr A (transp cA A) n_iter 1 (qr 0 (mmul (ncols G) A G)).
+
+Definition randomized_svd (svd : mat -> bool -> triple F) (qr : nat -> mat -> mat) (G : mat)
+    (M : mat) (d1 d2 : nat) (n : option nat) (n_over n_iter : nat) : triple F :=
+  let '(k, mn, mx) := svd_checks d1 d2 n in
+  let n_dims := Nat.min (k + n_over) mx in
+  let t := Nat.min mn n_dims in
+  if ((d2 <? d1) && (t <? k)) || ((d1 <? d2) && (k <? t)) then
+    let Mt := transp d2 M in                                           (* d2 x d1 *)
+    let Q := range_finder qr Mt d1 G n_iter in                         (* d2 x c  *)
+    let c := ncols Q in
+    let Mred := transp d1 (mmul d1 (transp c Q) Mt) in                 (* transpose(Q_H @ matrix_T): d1 x c *)
+    let '(U, Sg, V) := truncated_svd (svd Mred) d1 c (Some k) in
+    (U, Sg, mmul d2 V (transp c Q))                                    (* V @ transpose(Q) *)
+  else
+    let Q := range_finder qr M d2 G n_iter in                          (* d1 x c *)
+    let c := ncols Q in
+    let Mred := mmul d2 (transp c Q) M in                              (* Q_H @ matrix: c x d2 *)
+    let '(U, Sg, V) := truncated_svd (svd Mred) c d2 (Some k) in
+    (mmul (ncols U) Q U, Sg, V).                                       (* Q @ U *)
+
 (* ---------- NNDSVD / NNDSVDA, final step ----------
-   nndsvda:  where(W < eps, avg, W)    nndsvd: soft_thresholding(W, eps) = sign(W) * max(|W| - eps, 0) *)
+   nndsvda:  where(W < eps, avg, W) with avg = |mean(tensor)|    nndsvd: soft_thresholding(W, eps) = sign(W) * max(|W| - eps, 0) *)
 Definition fill_avg (eps avg : F) (W : mat) : mat := map (map (fun w => if fltb Op w eps then avg else w)) W.
 Definition soft_thr (eps : F) (W : mat) : mat :=
   map (map (fun w => fmul Op (fsign w) (let a := fsub Op (fabs Op w) eps in if fleb Op a (f0 Op) then f0 Op else a))) W.
@@ -131,7 +164,10 @@ Definition nn_pair (sq : F -> F) (j : nat) (s : F) (x y : list F) : list F * lis
     let xp := pos_part x in let yp := pos_part y in let xn := neg_part x in let yn := neg_part y in
     let xpn := nrm sq xp in let ypn := nrm sq yp in let xnn := nrm sq xn in let ynn := nrm sq yn in
     let mp := fmul Op xpn ypn in let mn_ := fmul Op xnn ynn in
-    if fltb Op mn_ mp then
+    if feqb Op mp (f0 Op) && feqb Op mn_ (f0 Op) then
+      (* `if m_p == 0 and m_n == 0: continue`: the zero column of W / zero row of H is left as it is *)
+      (map (fun _ => f0 Op) x, map (fun _ => f0 Op) y)
+    else if fltb Op mn_ mp then
       let lbd := sq (fmul Op s mp) in
       (map (fun a => fmul Op lbd (fdiv Op a xpn)) xp, map (fun a => fmul Op lbd (fdiv Op a ypn)) yp)
     else
@@ -148,7 +184,7 @@ Definition make_svd_non_negative (sq : F -> F) (eps : F) (M U : mat) (Sg : list 
   let W := cols_of (length U) Wt in
   match ty with
   | NNDSVD => (soft_thr eps W, soft_thr eps H)
-  | NNDSVDA => let avg := fmean M in (fill_avg eps avg W, fill_avg eps avg H)
+  | NNDSVDA => let avg := fabs Op (fmean M) in (fill_avg eps avg W, fill_avg eps avg H)      (* avg = tl.abs(tl.mean(tensor)) *)
   end.
 
 (* ---------- svd_interface: dispatch + post-processing ---------- *)
